@@ -110,6 +110,7 @@ func execC20Conc(rig *wireRig, c c20Case, res *vkit.Result) {
 	}
 	resps := rig.runConcurrent(cc.G, cc.Rounds, mk)
 	rig.flush()
+	retried := rig.sendRetries() > 0
 	got, faults := rig.honey.take()
 	_ = rig.log.take()
 	for _, f := range faults {
@@ -179,6 +180,10 @@ func execC20Conc(rig *wireRig, c c20Case, res *vkit.Result) {
 		case rejectedReq[[2]int{s.g, s.k}]:
 		case seen[id] == 0:
 			bads = append(bads, bad{"C20/concurrent-requests/accepted-event-not-forwarded/" + s.kind, "event " + id + " never reached Honeycomb"})
+		case seen[id] > 1 && retried:
+			// the transmission re-sent a batch after a client-side timeout: the upstream may
+			// have processed both copies. A wall-clock effect of an overloaded machine.
+			res.Class("inconclusive-timing/batch-resent-after-http-timeout")
 		case seen[id] > 1:
 			bads = append(bads, bad{"C20/concurrent-requests/event-forwarded-more-than-once/" + s.kind, "event " + id + " reached Honeycomb more than once"})
 		}
